@@ -32,6 +32,16 @@ import itertools
 
 from harness.common import hx
 
+# the implementation is imported once, in the engine process, so that the forked case workers inherit it
+import proxy.common.flag                    # noqa: E402,F401
+import proxy.core.connection.server         # noqa: E402,F401
+import proxy.http.handler                   # noqa: E402,F401
+import proxy.http.connection                # noqa: E402,F401
+import proxy.http.proxy.auth                # noqa: E402,F401
+import proxy.http.proxy.server              # noqa: E402,F401
+import proxy.http.exception                 # noqa: E402,F401
+import proxy.http.responses                 # noqa: E402,F401
+
 PROPERTY = 'C09'
 LEAN_TARGETS = ['PxProofs.C09']
 THEOREMS = [
@@ -419,6 +429,24 @@ class Sim:
         self.loop.close()
 
 
+_FROZEN = [None]
+
+
+def _gc_hygiene():
+    """The engine forks its case workers after building the whole case list; the first full garbage
+    collection of a worker would traverse (and copy-on-write) that inherited object graph, which takes
+    tens of seconds on a busy machine and trips the per-case timeout.  Park everything that exists at
+    first use in the permanent generation, and keep the per-process class / flags caches small."""
+    import gc
+    import os
+    if _FROZEN[0] != os.getpid():
+        gc.freeze()
+        _FROZEN[0] = os.getpid()
+    if len(_FLAGS) > 300:
+        _FLAGS.clear()
+        _CLASSES.clear()
+
+
 def simulate(case, drain=False):
     """Run the case on the real classes.  Returns (order, groups, shutdown tokens);
     a group = (tokens, upstream bytes, client bytes, teardown?).  One group per
@@ -426,6 +454,7 @@ def simulate(case, drain=False):
     everything still queued for the client before shutdown()."""
     import proxy.core.connection.server as S
     from proxy.http.proxy.server import HttpProxyPlugin
+    _gc_hygiene()
     del CALLS[:]
     sim = Sim(case)
     saved_conn = S.new_socket_connection
